@@ -2,7 +2,7 @@
 import itertools, json
 from .. import common, pool, pipefam
 
-RULE = ("scripts of environment answers (stop? -> bool, get -> job|empty|sentinel, put -> ok|full) executed on the real "
+RULE = ("scripts of environment answers (stop? -> bool, get -> job|empty|sentinel, put -> ok|full; job identifiers from 0, every fourth result a falsy non-None value) executed on the real "
         "WorkerProcess.run() in-thread with stub queues and on the Coq model; exhaustive over well-typed scripts up to length L "
         "(L=10 quick, 13 thorough) plus random scripts up to length 40 with ill-typed answers; plus two real WorkerProcess objects sharing queues and stop signal, the sibling run to its end while the first is inside execute_job (15 schedules); "
         "plus a real WorkerProcess with real multiprocessing queues (large results, late consumer, bounded output queue); non-trivial = at least one job taken "
@@ -64,12 +64,12 @@ def well_typed(maxlen):
             opts = [("get", "job", jobn), ("get", "empty"), ("get", "sentinel")]
         for o in opts:
             rec(script + [o], jobn + (1 if o[:2] == ("get", "job") else 0))
-    rec([], 1)
+    rec([], 0)
     return out
 
 
 def random_script(r, n):
-    s, job = [], 1
+    s, job = [], 0
     for _ in range(n):
         k = sim_kind(s) or r.choice(["stop", "put", "get"])
         if r.random() < 0.12:
@@ -97,10 +97,15 @@ def decode(flat):
     return {"pc": pcc, "sentinel_back": sb, "pending": pend, "taken": taken, "accepted": acc}
 
 
+def EXEC(j):
+    """execute_job of the scripted worker (implops_worker.run_worker_script) and of the model run: a falsy, non-None result for every fourth job"""
+    return 0 if j % 4 == 3 else j + 100
+
+
 def property_failures(script, tr):
     """the statement of C20 evaluated on the real trace"""
     fails = []
-    want = [j + 100 for j in tr["taken"]]
+    want = [EXEC(j) for j in tr["taken"]]
     acc = tr["accepted"]
     if acc != want[:len(acc)]:
         fails.append({"kind": "accepted_not_prefix_in_order", "taken": tr["taken"], "accepted": acc})
@@ -162,7 +167,7 @@ def run(chk):
             traces += rep["traces"]
     try:
         flats = common.coq_eval("c20", "From TEV Require Import Model.Worker.", "",
-                                ["flat_state (run (fun j => j + 100)%%nat true %s)" % to_coq(s) for s in scripts], chunk=250)
+                                ["flat_state (run (fun j => if Nat.eqb (Nat.modulo j 4) 3 then 0 else j + 100)%%nat true %s)" % to_coq(s) for s in scripts], chunk=250)
         chk.oblige("model evaluation (vm_compute) of every script", True)
     except Exception as e:
         flats = None
